@@ -70,7 +70,7 @@ static inline void ref_canonical_g(mpz_ptr out, mpz_srcptr p, mpz_srcptr q, mpz_
 	mpz_sub_ui(pm1.v, p, 1);
 	std::string U = "LibTMCG|" + Z(p).str(62) + "|" + Z(q).str(62) + "|ggen|";
 	int found = -1;
-	for (unsigned iter = 0; iter < 100000; iter++)
+	for (unsigned iter = 0; iter < 4096; iter++)
 	{
 		tmcg_mpz_shash(h.v, U);        // the hash itself is not C06's subject; ref/oracle_c06.py recomputes it with hashlib
 		mpz_powm(out, h.v, k, p);
@@ -162,7 +162,8 @@ static inline std::vector<std::string> ref_failing(const PSet &s)
 			for (size_t j = i + 1; j < s.gens.size(); j++)
 				if (mpz_cmp(s.gens[i].second, s.gens[j].second) == 0)
 					f.push_back(s.name + "distinct:" + s.gens[i].first + "=" + s.gens[j].first);
-	if (s.canon == 1 && pp && qp && form && cop && !s.gens.empty())
+	// the derivation is only defined (and only terminates) on an otherwise well-formed set; an ill-formed set is ill-formed anyway
+	if (s.canon == 1 && f.empty() && !s.gens.empty())
 	{
 		ref_canonical_g(t.v, s.p, s.q, k.v, 0);
 		if (mpz_cmp(t.v, s.gens[0].second)) f.push_back(s.name + "canon");
